@@ -8,6 +8,8 @@
 //	type   declared type x runtime value kind x boundary
 //	inst   abstract/interface kinds x `new` forms
 //	chain  which of 2 abstract methods are implemented where in a 3-level chain
+//	gtype  typed store into a T-typed property of a generic class x type argument x value kind x
+//	       0..2 earlier operations on a raw / differently instantiated object of the class (gtype.go)
 //	oblig  by which route (interface extends-DAG, implements at C/P/G, abstract parent/grandparent,
 //	       instance/static) an abstract method reaches a concrete class (oblig.go)
 //
@@ -124,6 +126,7 @@ type caseDesc struct {
 	IPath  string    `json:"inst_path,omitempty"`
 	Chain  *chainCfg `json:"chain,omitempty"`
 	Oblig  *obCfg    `json:"oblig,omitempty"`
+	GHist  *gHist    `json:"ghist,omitempty"`
 	Cls    string    `json:"cls,omitempty"`
 	Script string    `json:"script,omitempty"`
 	Expect string    `json:"expect,omitempty"`
@@ -895,7 +898,7 @@ func main() {
 		return
 	}
 	if pool.IsWorker() {
-		pool.Serve(map[string]pool.Handler{"vis": visWorker, "type": typeWorker, "inst": instWorker, "chain": chainWorker, "oblig": obligWorker})
+		pool.Serve(map[string]pool.Handler{"vis": visWorker, "type": typeWorker, "inst": instWorker, "chain": chainWorker, "oblig": obligWorker, "gtype": gtypeWorker})
 	}
 	c := ev.New("C07")
 	defer runner.Cleanup()
@@ -936,11 +939,14 @@ func main() {
 		}
 	}
 	shards = append(shards, obligShards(c.Quick(), seeds)...)
+	shards = append(shards, gtypeShards(seeds)...)
 	var cells, runs int64
 	outcomes := map[string]int64{}
 	counters := map[string]int64{}
 	tfails := map[int64][]typeFail{}
 	var vfails []rec
+	var gfails []gFail
+	gseeds := map[int]int64{}
 	pool.Run(shards, pool.Options{}, func(si int, rb json.RawMessage) {
 		var r rec
 		json.Unmarshal(rb, &r)
@@ -958,6 +964,12 @@ func main() {
 			c.Fail(r.Key, r.Clause, r.Size, r.Case, r.Detail)
 		case "vfail":
 			vfails = append(vfails, r)
+		case "gfail":
+			b, _ := json.Marshal(r.Case)
+			var gf gFail
+			json.Unmarshal(b, &gf)
+			gseeds[len(gfails)] = shards[si].Arg.(shardArg).Seed
+			gfails = append(gfails, gf)
 		case "tfail":
 			b, _ := json.Marshal(r.Case)
 			var tf typeFail
@@ -976,6 +988,7 @@ func main() {
 		summariseTypes(tfails[sd], c, sd)
 	}
 	summariseVis(vfails, counters, c)
+	summariseG(gfails, gseeds, c)
 	for k, v := range outcomes {
 		for i := int64(0); i < 1; i++ {
 			c.Outcome(k)
@@ -996,6 +1009,7 @@ func main() {
 	c.Set("value_kinds", len(valKinds))
 	c.Set("boundaries", len(boundaries))
 	c.Set("chain_configs", len(allChainCfgs()))
+	c.Set("gtype_histories_per_boundary_and_type_argument", 1+4*31)
 	c.Set("oblig_configs", len(allObligCfgs(c.Quick())))
 	c.Set("oblig_bounds(depth,interfaces)", obligBounds(c.Quick()))
 	c.Set("name_prefixes", len(seeds))
@@ -1016,6 +1030,18 @@ func main() {
 		if strings.HasPrefix(k, "oblig/ok/") {
 			obOk += v
 		}
+	}
+	var gAcc, gRej int64
+	for k, v := range outcomes {
+		if strings.HasPrefix(k, "gtype/accept=true/") {
+			gAcc += v
+		}
+		if strings.HasPrefix(k, "gtype/accept=false/") {
+			gRej += v
+		}
+	}
+	if gAcc == 0 || gRej == 0 {
+		c.HarnessError("vacuous: the generic typed-store family did not contain both acceptable and unacceptable values")
 	}
 	if obDeny == 0 || obOk == 0 {
 		c.HarnessError("vacuous: the obligation-route family did not contain both incomplete and complete concrete classes")
@@ -1106,6 +1132,30 @@ func replay(c *ev.Check) {
 		}
 		var script string
 		cl, det, script = evalChain(st, *cs.Chain, idx, cs.Seed)
+		fmt.Println(script)
+	case "gtype":
+		bi, ti, vi := -1, -1, -1
+		for i, b := range gBoundaries {
+			if b.name == cs.Bound {
+				bi = i
+			}
+		}
+		for i, t := range declTypes[:nGArgs] {
+			if t.src == cs.Type {
+				ti = i
+			}
+		}
+		for i, v := range valKinds {
+			if v.name == cs.Val {
+				vi = i
+			}
+		}
+		if bi < 0 || ti < 0 || vi < 0 || cs.GHist == nil {
+			fmt.Println("replay: cell not found")
+			os.Exit(2)
+		}
+		var script string
+		cl, det, script = evalGCell(st, gBoundaries[bi], declTypes[ti], *cs.GHist, vi, cs.Seed, true)
 		fmt.Println(script)
 	case "oblig":
 		var script string
